@@ -96,14 +96,23 @@ class MonitoredFuture(Future):
 
 
 class ControlledPool(ThreadPoolExecutor):
-    def __init__(self):
+    """``eager_chooser``: when set, every submission first asks the schedule whether the task has
+    already finished by the time ``submit`` returns (a fast worker thread) or is parked."""
+
+    def __init__(self, eager_chooser=None):
         ThreadPoolExecutor.__init__(self, max_workers=1)
         self.parked = []
         self.completed = []
+        self.eager_chooser = eager_chooser
+        self.eager_trace = None
 
     def submit(self, fn, *args, **kwargs):
         f = MonitoredFuture()
         self.parked.append((f, fn, args, kwargs, label_of(fn, args)))
+        if self.eager_chooser is not None and self.eager_chooser.choose(2) == 1:
+            label = self.run(len(self.parked) - 1)
+            if self.eager_trace is not None:
+                self.eager_trace.append(("done-at-submit",) + tuple(label))
         return f
 
     def pending_labels(self):
@@ -216,7 +225,7 @@ def normalise(result):
 # ---------------------------------------------------------------------------
 
 
-def run_threadpool(chooser, schema, text, kwargs):
+def run_threadpool(chooser, schema, text, kwargs, eager=False):
     """Returns (outcome, trace). outcome: ("ok", data, error_paths, result) | ("raised", exc)
     | ("stuck", detail)."""
     import py_gql
@@ -227,9 +236,10 @@ def run_threadpool(chooser, schema, text, kwargs):
 
     rt = ThreadPoolRuntime(max_workers=1)
     rt._inner.shutdown(wait=False)
-    pool = ControlledPool()
+    pool = ControlledPool(chooser if eager else None)
     rt._inner = pool
     trace = []
+    pool.eager_trace = trace
     original_future = m_tp.Future
     m_tp.Future = MonitoredFuture
     MonitoredFuture.reset()
@@ -276,7 +286,7 @@ def settle(loop, limit=100000):
             raise RuntimeError("event loop does not settle")
 
 
-def run_asyncio(chooser, schema, text, kwargs, in_thread, make_binding_async):
+def run_asyncio(chooser, schema, text, kwargs, in_thread, make_binding_async, eager=False):
     """make_binding_async(gates) switches the case's coroutine resolvers to the gates of this run.
     Returns (outcome, trace)."""
     import py_gql
@@ -284,11 +294,12 @@ def run_asyncio(chooser, schema, text, kwargs, in_thread, make_binding_async):
     from py_gql.execution.runtime import AsyncIORuntime
 
     loop = asyncio.new_event_loop()
-    pool = ControlledPool()
+    pool = ControlledPool(chooser if eager else None)
     loop.set_default_executor(pool)
     gates = Gates(loop)
     make_binding_async(gates)
     trace = []
+    pool.eager_trace = trace
     rt = AsyncIORuntime(loop=loop, execute_blocking_functions_in_thread=in_thread)
     try:
         with warnings.catch_warnings():
